@@ -6,6 +6,7 @@ import FrappyModel.Datatypes.CompatUsers
 import FrappyModel.Datatypes.CopyHeap
 import FrappyModel.Datatypes.Import
 import FrappyModel.Datatypes.CommandInfo
+import FrappyModel.Datatypes.History
 import FrappyModel.Spec.C03
 import FrappyModel.Generated.C03
 /-
@@ -26,6 +27,11 @@ Line-protocol glue for C03.  Annotated trees (`DInfo`) are the trees of `DTypes.
                "commands":[{"name":s,"dt":C,"remote":null|C},..]}         (C = {"arg":T|null,"res":T|null})
       → {"model":{"params":[[name,[warning,..]],..],"commands":[[name,[warning,..]],..]}}   (ProxyModule._check_descriptive_data)
   {"k":"cmdcompat","a":C,"b":C,"impl":{"verdict":…,"wa":[{"v":V,"acc":b},..],"wr":[..]}} → {"model":"pass"|"bad","nested":b,"judge":[..]}
+  a parameter of "proxy" may carry "obs":{"incompatible":b,"notfully":b,"to_remote":[{"v":V,"acc":b},..],"to_proxy":[..]}
+      → additionally "judge":["<clause>@<name>",..]   (judgeProxyParam: the verdict in the direction the values flow)
+  {"k":"history","di":T,"steps":[{"op":"export","path":[n..]}|{"op":"unit","path":[n..],"unit":s}|{"op":"set","path":[n..],"props":[[key,P],..]},..],
+               "final":"rebuild"|"copy","impl":{…as rebuild…,"twin":J|null}}      (P = {"f":bits} | integer | string | bool)
+      → {"model":{"tree":T|err,"exports":[J|err,..],"datainfo":J|err,"tree2":T|err},"judge":[..]}   (one object through a history)
   {"k":"writable","value":T,"target":T} → {"model":"ok"|"ConfigError"|"ProgrammingError"}   (Writable.__init__; the
       datatypes are those declared: the check sees their copies, `copyC`)
 -/
@@ -238,6 +244,32 @@ def compatLawFailures (m s x y rr ar : Float) (lo i hi : Int) : List String :=
       | none => true)]
   (checks.filter (fun c => !c.2)).map (·.1)
 
+def witsOfJson (j : Json) (key : String) : R (List (Witness Float)) := do
+  match j.getObjVal? key with
+  | .ok ws => (← arr ws).mapM (fun w => do
+      return ({ value := ← pvalOfJson (← fld w "v"), accepted := ← fldBool w "acc" } : Witness Float))
+  | .error _ => pure []
+
+def propValOfJson (j : Json) : R (PropVal Float) :=
+  match j with
+  | .str s => pure (.str s)
+  | .bool b => pure (.bool b)
+  | .num _ => do return .int (← j.getInt?)
+  | _ => do return .num (← floatOfJson j)
+
+def stepOfJson (j : Json) : R (Step Float) := do
+  let path ← fldNats j "path"
+  match ← fldStr j "op" with
+  | "export" => return .export path
+  | "unit" => return .mainUnit path (← fldStr j "unit")
+  | "set" =>
+    let props ← (← fldArr j "props").mapM (fun kv => do
+      match ← arr kv with
+      | [k, v] => return ((← k.getStr?), (← propValOfJson v))
+      | _ => throw "bad property item")
+    return .setProps path props
+  | op => throw s!"unknown step {op}"
+
 def handle (j : Json) : R Json := do
   let k ← fldStr j "k"
   match k with
@@ -322,6 +354,16 @@ def handle (j : Json) : R Json := do
         | .error _ => pure none
       let ws := proxyParam name (← fldBool p "export") (← fldBool p "readonly") dt remote
       return jarr [.str name, jstrs (ws.map ProxyWarning.name)])
+    let judged ← (← fldArr j "params").mapM (fun p => do
+      match p.getObjVal? "obs", p.getObjVal? "remote" with
+      | .ok o, .ok r =>
+        if o.isNull || r.isNull then return []
+        let name ← fldStr p "name"
+        let obs : ProxyObs Float := { incompatible := ← fldBool o "incompatible", notFully := ← fldBool o "notfully",
+                                      toRemote := ← witsOfJson o "to_remote", toProxy := ← witsOfJson o "to_proxy" }
+        let cl := judgeProxyParam (!(← fldBool p "readonly")) (← ctypeOfJson (← fld p "dt")) (← ctypeOfJson (← fld r "dt")) obs
+        return cl.map (· ++ "@" ++ name)
+      | _, _ => return [])
     let cmds : List Json := match j.getObjVal? "commands" with
       | .ok (.arr xs) => xs.toList
       | _ => []
@@ -333,7 +375,7 @@ def handle (j : Json) : R Json := do
         | .ok r => do pure (some (← cmdOfJson r))
         | .error _ => pure none
       return jarr [.str name, jstrs ((proxyCommand dt remote).map ProxyCmdWarning.name)])
-    return Json.mkObj [("model", Json.mkObj [("params", jarr out), ("commands", jarr cout)])]
+    return Json.mkObj [("model", Json.mkObj [("params", jarr out), ("commands", jarr cout)]), ("judge", jstrs judged.flatten)]
   | "cmdcompat" =>
     let a ← cmdOfJson (← fld j "a")
     let b ← cmdOfJson (← fld j "b")
@@ -384,6 +426,34 @@ def handle (j : Json) : R Json := do
       | .ok c' => Json.mkObj [("arg", (c'.argument.map dinfoToJson).getD .null), ("res", (c'.result.map dinfoToJson).getD .null)]
       | .error e => errToJson e
     return Json.mkObj [("model", showCmd (getCommand consts d))]
+  | "history" =>
+    let t ← dinfoOfJson (← fld j "di")
+    let steps ← (← fldArr j "steps").mapM stepOfJson
+    let impl ← fld j "impl"
+    match run consts t steps with
+    | .error e =>
+      -- the model refuses a step; an implementation that went on is still judged, on the state read off its object
+      let judged : List String ← match impl.getObjVal? "refused", impl.getObjVal? "tree" with
+        | .ok (.str _), _ => pure []
+        | _, .ok tj => if tj.isNull then pure [] else do
+            pure (judgeHistory (← dinfoOfJson tj) { derived := ← derivedOfJson impl, twin := ← optJVal impl "twin" })
+        | _, _ => pure []
+      return Json.mkObj [("model", Json.mkObj [("tree", errToJson e)]), ("judge", jstrs judged)]
+    | .ok (t', outs) =>
+      let ex := exportDatatype consts t'
+      let derived : Except Err (DInfo Float) :=
+        if (← fldStr j "final") == "copy" then copy consts t'
+        else match ex with
+          | .ok d => getDatatype consts d
+          | .error e => .error e
+      let judged : List String ← match impl.getObjVal? "refused" with
+        | .ok (.str _) => pure []
+        | _ => do pure (judgeHistory t' { derived := ← derivedOfJson impl, twin := ← optJVal impl "twin" })
+      return Json.mkObj [
+        ("model", Json.mkObj [("tree", dinfoToJson t'), ("exports", jarr (outs.map (exToJson jvalToJson))),
+          ("datainfo", exToJson jvalToJson ex), ("tree2", exToJson dinfoToJson derived)]),
+        ("snappable", .bool (DInfo.snapLimits t').isSome),
+        ("judge", jstrs judged)]
   | "writable" =>
     let v ← ctypeOfJson (← fld j "value")
     let t ← ctypeOfJson (← fld j "target")
